@@ -108,7 +108,10 @@ def run(rep, ctx, tier):
                                        if e[1] in ("l_vec", "r_vec", "hiding_comm")], "RFS")
             if nd < 1:
                 rep.add("RFS", "%s:floor" % a.key, False, "no digest-based challenge derivation found in the IPA verifier (fail closed)", a.body.span)
-        zips += R4.run_zip(rep, ctx, a, "R4a")
+        nz = R4.run_zip(rep, ctx, a, "R4a")
+        if nz == 0 and a.method in ("batch_check", "check_combinations"):
+            nz = R4.run_positional(rep, ctx, a, "R4a")
+        zips += nz
         padts = {e[0] for e in a.info["proof"]}
         rep.count("loop_zips_over_proof_vectors", R4.run_loopzip(rep, ctx, a, padts, "R4c"))
         if a.info.get("adt") == "linear_codes::LinearCodePCS":
